@@ -74,7 +74,9 @@ Next ==
        IF e.ev = "reset" THEN st' = FALSE
        ELSE IF st THEN UNCHANGED st
        ELSE LET r == Reason(e) IN
-            IF r = "" THEN st' = FALSE ELSE Reject(e, r) /\ st' = TRUE
+            \* a payloader call is judged on its own (no abstract state is carried from call to call), so a refused call does not
+            \* hide the following calls of the same history
+            IF r = "" THEN st' = FALSE ELSE Reject(e, r) /\ st' = (e.ev # "payload")
 Spec == Init /\ [][Next]_<<l, st>>
 Done == Consumed
 =============================================================================
